@@ -21,7 +21,7 @@ SPEC = {
         dict(dir="config", pkgname="config_test", files=["config/c15_manager_test.go"], test="TestVerifC15Manager",
              n_quick=260, n_thorough=4000, shards_quick=2, shards_thorough=4),
     ],
-    "gen": ["ConfigSchemas"],
+    "gen": ["ConfigSchemas", "ConfigValidators", "ConfigCustoms"],
     "force": ["Model/C15_Check.v", "Proofs/C15_Tables.v", "Proofs/C15_Manager.v"],
     "diag": True,
     "rule": "per section: every member of the JSON struct (found by reflection) x every candidate value of its kind on the default document "
